@@ -6,6 +6,11 @@ V = os.path.dirname(os.path.dirname(os.path.abspath(__file__)))
 def sweep(unit, only=None, jobs=12):
     gen = os.path.join(V, 'gen', unit + '.rs')
     meta = json.load(open(gen + '.meta.json'))
+    return sweep_path(gen, meta, only, jobs)
+
+
+def sweep_path(gen, meta, only=None, jobs=12):
+    unit = os.path.basename(gen)[:-3]
     src = open(gen).read()
     lines = src.split('\n')
     lm = {int(k): v for k, v in meta['linemap'].items()}
@@ -18,7 +23,7 @@ def sweep(unit, only=None, jobs=12):
     res = {}
     def one(f):
         name = f.split('::')[-1]
-        if only and not any(o in f for o in only):
+        if only and not any(f.endswith(o) for o in only):
             return f, None
         # find the signature line `fn name` at or after starts[f]
         i = starts[f] - 1
@@ -38,7 +43,7 @@ def sweep(unit, only=None, jobs=12):
             new = txt[:m.end()] + ' false,' + txt[m.end():]
         else:
             new = txt[:body] + '\n ensures false\n' + txt[body:]
-        p = os.path.join(V, 'gen', 'vac_%s_%s.rs' % (unit, re.sub(r'\W', '_', f)))
+        p = os.path.join(os.path.dirname(gen), 'vac_%s_%s.rs' % (unit, re.sub(r'\W', '_', f)))
         open(p, 'w').write(new)
         r = subprocess.run(['verus', p, '--verify-root', '--verify-function', '*' + name, '--multiple-errors', '1'],
                            stdout=subprocess.PIPE, stderr=subprocess.STDOUT, text=True, cwd=V)
